@@ -222,25 +222,9 @@ def xeeEscape (s : List Char) : List Char := s.flatMap xeeEscapeChar
 
 /-! ## `htmlentityreplace_errors` -/
 
-def hexLower (d : Nat) : Char := if d < 10 then Char.ofNat (48 + d) else Char.ofNat (87 + d)
-
-/-- `repr(bytes)` of ASCII bytes, one byte; `q` is the quote chosen -/
-def bytesReprChar (q : Char) (c : Char) : List Char :=
-  if c = q ∨ c = '\\' then ['\\', c]
-  else if c = '\t' then ['\\', 't']
-  else if c = '\n' then ['\\', 'n']
-  else if c = '\r' then ['\\', 'r']
-  else if c.toNat < 32 ∨ c.toNat ≥ 127 then ['\\', 'x', hexLower (c.toNat / 16), hexLower (c.toNat % 16)]
-  else [c]
-
-/-- `str(b)` for a `bytes` object `b` = `repr(b)`: `b'…'` (`b"…"` when the bytes contain `'` but no `"`) -/
-def bytesRepr (b : List Char) : List Char :=
-  let q : Char := if '\'' ∈ b ∧ '"' ∉ b then '"' else '\''
-  'b' :: q :: (b.flatMap (bytesReprChar q) ++ [q])
-
 /-- the replacement text the handler returns for the unencodable slice `ex.object[ex.start:ex.end]`:
-`str(_html_entities_escaper.escape(bad_text))` – `escape` returns *bytes*, so this is their `repr`. -/
-def handlerReplace (bad : List Char) : List Char := bytesRepr (xeeEscape bad)
+`_html_entities_escaper.escape(bad_text).decode("ascii")` – the ASCII bytes of `escape`, as text. -/
+def handlerReplace (bad : List Char) : List Char := xeeEscape bad
 
 /-- the codec encodes the replacement text itself; an unencodable character in it raises the original error -/
 def flushRun (enc : Char → Bool) (runRev : List Char) : Option (List Char) :=
@@ -280,11 +264,53 @@ inductive PyVal where
   | bytes (b : List Nat)
   | other (strOf : List Char)     -- any other object; `strOf` is what `str(x)` returns
 
-/-- `Decode.__getattr__(key)(x)`; `codec` is `bytes -> str` for the encoding `key` (`none` = it raises) -/
+/-- the body of the closure `decode` that `Decode.__getattr__(key)` returns; `codec` is `bytes -> str` for the
+encoding `key` the closure captured (`none` = it raises) -/
 def decodeFilter (codec : List Nat → Option (List Char)) : PyVal → Option (List Char)
   | .str s => some s
   | .other r => some r          -- `decode(str(x))`, and `str(x)` is a `str`
   | .bytes b => codec b
+
+/-- `Decode` over time.  Every attribute lookup `decode.<key>` creates a *new* closure that captured `key`;
+closures are held by generated code / callers for any length of time and called in any order.  The state is the
+list of closures created so far (a closure *is* its captured key); `Decode` itself has no state. -/
+inductive DecodeOp where
+  | lookup (key : List Char)          -- `d_j = decode.<key>` (j = number of lookups before)
+  | call (j : Nat) (x : PyVal)        -- `d_j(x)`
+
+abbrev DecodeState := List (List Char)
+
+/-- outcome of one operation: lookups answer nothing; `call` answers the closure's result (`none` = raises),
+or `badIndex` for a closure that does not exist (not generated by the harness) -/
+inductive DecodeOut where
+  | none
+  | result (r : Option (List Char))
+  | badIndex
+
+def decodeStep (codecs : List Char → List Nat → Option (List Char)) (st : DecodeState) :
+    DecodeOp → DecodeState × DecodeOut
+  | .lookup key => (st ++ [key], .none)
+  | .call j x =>
+    match st[j]? with
+    | some key => (st, .result (decodeFilter (codecs key) x))
+    | none => (st, .badIndex)
+
+/-- run a history; the outcomes in order -/
+def decodeRun (codecs : List Char → List Nat → Option (List Char)) : DecodeState → List DecodeOp →
+    DecodeState × List DecodeOut
+  | st, [] => (st, [])
+  | st, op :: ops =>
+    let (st1, o) := decodeStep codecs st op
+    let (st2, os) := decodeRun codecs st1 ops
+    (st2, o :: os)
+
+/-- the codecs the driver knows (correspondence only): utf8 (strict), latin1, ascii; anything else raises -/
+def driverCodec (key : List Char) (b : List Nat) : Option (List Char) :=
+  if key = "utf8".toList then
+    none   -- replaced below by `Spec.utf8Decode` (defined later in this file)
+  else if key = "latin1".toList then some (b.map Char.ofNat)
+  else if key = "ascii".toList then (if b.all (· < 128) then some (b.map Char.ofNat) else none)
+  else none
 
 /-! ## Spec: reference decoders -/
 namespace Spec
@@ -399,20 +425,11 @@ inductive Pieces (R : Char → List Char → Prop) : List Char → List Char →
 /-- the character has a named HTML entity / `n` is its name -/
 def HasEntity (c : Char) : Prop := ∃ n, (c.toNat, n) ∈ codepoint2name
 
-/-- What `text.encode(cs, "htmlentityreplace")` produces on the unchanged tree, as a relation between the text
-and the (pre-encoding) output: encodable characters pass; a non-empty run of unencodable characters becomes
-the concatenation of their references `ref c` - wrapped in `b'` … `'` (finding F3). -/
-inductive Wrapped (enc : Char → Bool) (ref : Char → List Char) : List Char → List Char → Prop where
-  | nil : Wrapped enc ref [] []
-  | pass {c s o} : enc c = true → Wrapped enc ref s o → Wrapped enc ref (c :: s) (c :: o)
-  | run {r s o} : r ≠ [] → (∀ c ∈ r, enc c = false) → Wrapped enc ref s o →
-      Wrapped enc ref (r ++ s) ('b' :: '\'' :: (r.flatMap ref ++ '\'' :: o))
-
 /-- the reference the handler computes for an unencodable character (`XMLEntityEscaper.escape` on it) -/
 abbrev charRef (c : Char) : List Char := xeeEscapeChar c
 
 /-- FULL statement of the property for the handler: each unencodable character is replaced by its reference,
-everything else is unchanged.  OPEN on the unchanged tree (finding F3), see `Props/C10.lean`. -/
+everything else is unchanged (the output is the text whose strict encoding the codec then emits). -/
 def HandlerFaithful (enc : Char → Bool) (grouped : Bool) (s : List Char) : Prop :=
   handlerEncode enc grouped s = some (s.flatMap fun c => if enc c then [c] else charRef c)
 
